@@ -58,13 +58,13 @@ __CPROVER_ensures((unsigned long)__CPROVER_return_value < OLD(NREG) || g_r >= OL
 void c_dispatchValue(void *p, void *c, int tgt)
 REQ_GS(p)
 REQ_GC
-ASSIGNS_GS
+ASSIGNS_GS_CALLEE
 ENS_MONO;
 
 void c_dispatchVoid(void *p, void *c)
 REQ_GS(p)
 REQ_GC
-ASSIGNS_GS
+ASSIGNS_GS_CALLEE
 ENS_MONO;
 
 /* ------------------------------------------------------------------ dispatchLoop: LOOP x DO body END
@@ -165,6 +165,70 @@ __CPROVER_requires((c) == 0 || ((node_t *)(c))->t != NT_SPLIT || ((node_t *)(c))
 ARGS_CONTRACT(c_dispatchArgs, ARGS_CHILDREN)
 ARGS_CONTRACT(c_dispatchArgs_callee, )
 
+/* ------------------------------------------------------------------ dispatchValue: id | int | RUN f WITH args END
+ * Light callee contracts (weakenings of the contracts enforced elsewhere, without their memory-shape preconditions). */
+void c_advanceLine_callee(void *p, int line, long file_id)
+REQ_GS(p)
+ASSIGNS_GS_CALLEE
+__CPROVER_assigns(g_gs->fs.name, g_gs->fs.line)
+ENS_MONO
+/* at most one instruction, a breakpoint site (contracts/gen_tbl.c: c_advanceLine) */
+__CPROVER_ensures(GNC <= OLD(GNC) + 1 && (GNC == OLD(GNC) || GOP(GNC - 1) == OP_POTENTIAL_BREAK) && NLAB == OLD(NLAB) && NBP == OLD(NBP) &&
+                  GNERR == OLD(GNERR) && NREG == OLD(NREG));
+int c_strToInt_callee(void *p, void *c)
+REQ_GS(p)
+ASSIGNS_GS_CALLEE
+ENS_MONO
+__CPROVER_ensures(GNC == OLD(GNC) && NLAB == OLD(NLAB) && NBP == OLD(NBP) && NREG == OLD(NREG) && GNERR <= OLD(GNERR) + 1);
+/* contracts/gen_misc.c: c_strToIntSilent - the value of a digit string, clamped into [0, INT_MAX] */
+int c_strToIntSilent_callee(void *c)
+__CPROVER_requires(1)
+__CPROVER_assigns()
+__CPROVER_ensures(__CPROVER_return_value >= 0);
+
+#define FA (g_gs->funcAddrs._d)
+#define NFA (g_gs->funcAddrs._n)
+#define ERRT(i) (g_gs->errors._d[i].t)
+#define CN(c) ((node_t *)(c))
+#define IS_BUILTIN(id) ((id) == LIT___INC__ || (id) == LIT___DEC__)
+/* ghosts describing the (harness built) call node: number of arguments, name of the callee */
+extern int g_argc, g_k2;
+extern long g_fname;
+void c_dispatchValue_top(void *p, void *c, int tgt)
+REQ_GS(p)
+__CPROVER_requires(g_w < SKIP && model_pick_map == g_w && model_pick2_map == g_w && model_pick3_map == NONE)
+__CPROVER_requires(NFA <= g_gs->funcAddrs._cap)
+ASSIGNS_GS
+__CPROVER_assigns(g_gs->fs.name, g_gs->fs.line)
+ENS_MONO
+/* VALUE -> id : copy of the variable's register (target := source + 0) */
+__CPROVER_ensures((c) == 0 || CN(c)->t != NT_NAME ||
+                  (GNC >= OLD(GNC) + 1 && GOP(GNC - 1) == OP_ADD_CONST && GPAR(GNC - 1, PI_add_target) == tgt && GPAR(GNC - 1, PI_add_constant) == 0 &&
+                   GPAR(GNC - 1, PI_add_source) >= 0 && (unsigned long)GPAR(GNC - 1, PI_add_source) < NREG &&
+                   REGS[GPAR(GNC - 1, PI_add_source)].name._id == CN(c)->tok._id)) /*@C01,C03*/
+/* VALUE -> int : constant load into the target */
+__CPROVER_ensures((c) == 0 || CN(c)->t != NT_NUMBER ||
+                  (GNC >= OLD(GNC) + 1 && GOP(GNC - 1) == OP_CONST && GPAR(GNC - 1, PI_constant_target) == tgt)) /*@C01*/
+/* C04/C16: a RUN of a name that is not (yet) in the program table is an error and emits no call */
+__CPROVER_ensures((c) == 0 || CN(c)->t != NT_CALL || IS_BUILTIN(g_fname) || model_last_map < OLD(NFA) ||
+                  (GNERR >= OLD(GNERR) + 1 && ERRT(GNERR - 1) == ET_UNKNOWN_PROGRAM_NAME && (GNC == OLD(GNC) || GOP(GNC - 1) != OP_EXEC || g_argc > 0))) /*@C04,C16*/
+__CPROVER_ensures((c) == 0 || CN(c)->t != NT_CALL || IS_BUILTIN(g_fname) || model_last_map < OLD(NFA) ||
+                  !(model_g_map < OLD(NFA) && FA[model_g_map].first._id == g_fname)) /*@C04,C16*/
+/* C04: the number of arguments must equal the number of parameters */
+__CPROVER_ensures((c) == 0 || CN(c)->t != NT_CALL || IS_BUILTIN(g_fname) || model_last_map >= OLD(NFA) || FA[model_last_map].second.argnum == g_argc ||
+                  (GNERR >= OLD(GNERR) + 1 && ERRT(GNERR - 1) == ET_ARGSIZE_MISMATCH)) /*@C04,C03*/
+/* C03: call sequence PREPARE(frame size, stack map, target) ; ARG k, temporary_k ... ; EXEC entry - all taken from the
+ * program table entry of the callee */
+__CPROVER_ensures((c) == 0 || CN(c)->t != NT_CALL || IS_BUILTIN(g_fname) || model_last_map >= OLD(NFA) || FA[model_last_map].second.argnum != g_argc ||
+                  (GNC >= OLD(GNC) + 2 + (unsigned long)g_argc && FA[model_last_map].first._id == g_fname &&
+                   GOP(GNC - 1) == OP_EXEC && GPAR(GNC - 1, PI_exec_entry) == FA[model_last_map].second.ind &&
+                   GOP(GNC - 2 - g_argc) == OP_PREPARE_EXEC && GPAR(GNC - 2 - g_argc, PI_prepare_count) == FA[model_last_map].second.stack_size &&
+                   GPAR(GNC - 2 - g_argc, PI_prepare_index) == FA[model_last_map].second.mi && GPAR(GNC - 2 - g_argc, PI_prepare_target) == tgt)) /*@C03,C01,C16*/
+__CPROVER_ensures((c) == 0 || CN(c)->t != NT_CALL || IS_BUILTIN(g_fname) || model_last_map >= OLD(NFA) || FA[model_last_map].second.argnum != g_argc ||
+                  g_k2 < 0 || g_k2 >= g_argc ||
+                  (GOP(GNC - 1 - g_argc + g_k2) == OP_ARG && GPAR(GNC - 1 - g_argc + g_k2, PI_arg_target) == g_k2 &&
+                   GPAR(GNC - 1 - g_argc + g_k2, PI_arg_source) >= 0 && (unsigned long)GPAR(GNC - 1 - g_argc + g_k2, PI_arg_source) < NREG)) /*@C03,C01*/;
+
 #ifdef SPEC_CHECKS_OFF
 #pragma CPROVER check pop
 #endif
@@ -214,7 +278,29 @@ static void *setup(void)
   __CPROVER_assume(g_r >= NREG || NREG > RCAP || (gr_temp == REGS[g_r].is_temp && gr_use == REGS[g_r].in_use && gr_name == REGS[g_r].name._id));
   return &the_gs;
 }
+#define K_FA 4
+static struct m_map_string_Prog_e the_fa[K_FA];
+static node_t n_call, n_name, n_s1, n_s2, n_a1, n_a2;
+int g_argc, g_k2;
+long g_fname;
+/* a value node: NAME / NUMBER / CALL with at most two arguments (BOUND of the dispatchValue group) / anything else */
+static void *setup_value(void)
+{
+  g_gs->funcAddrs._d = the_fa; g_gs->funcAddrs._cap = K_FA; g_gs->funcAddrs._n = nondet_ulong();
+  n_call.left = &n_name; n_name.left = 0; n_name.right = 0;
+  g_fname = n_name.tok._id;
+  g_argc = nondet_int(); g_k2 = nondet_int(); g_w = nondet_ulong();
+  __CPROVER_assume(g_argc >= 0 && g_argc <= 2);
+  n_a1.left = 0; n_a1.right = 0; n_a2.left = 0; n_a2.right = 0;
+  n_s1.t = NT_SPLIT; n_s2.t = NT_SPLIT; n_s1.left = &n_a1; n_s2.left = &n_a2; n_s2.right = 0;
+  n_s1.right = g_argc == 2 ? &n_s2 : 0;
+  n_call.right = g_argc == 0 ? 0 : &n_s1;
+  __CPROVER_assume(n_a1.t != NT_SPLIT && n_a2.t != NT_SPLIT);
+  return &n_call;
+}
 #define CANARY __CPROVER_assert(0, "canary: end of harness reachable (requires satisfiable)")
+void w_dispatchValue(void *p, void *c, int tgt);
+void h_dispatchValue_top(void) { void *p = setup(); void *c = setup_value(); w_dispatchValue(p, nondet_bool() ? c : 0, nondet_int()); CANARY; }
 int w_fetchTemporary(void *p);
 int w_fetchVariableRegister(void *p, long name_id);
 void w_dispatchLoop(void *p, void *c);
